@@ -58,10 +58,20 @@ RepChecks(e, g) ==   \* C09: the repetition answer for every legal move, against
   IN /\ {x[1] : x \in SeqToSet(e.rep)} = LegalTexts(p)
      /\ \A x \in SeqToSet(e.rep) :
           LET m == CHOOSE y \in Legal(p) : Uci(y) = x[1] IN x[2] = (Occ(Apply(p, m)) >= 2)
+\* C09 on the REAL search: every successor the depth-1 search entered (event sink).  A third occurrence is valued as a draw -
+\* score zero, nothing searched below it; a position seen fewer than twice does not return through the repetition rule.
+SeenChecks(e, g) ==
+  LET p == g[Len(g)]
+      Occ(q) == Cardinality({i \in 1..Len(g) : g[i] = q})
+  IN \A x \in SeqToSet(e.seen) :
+       /\ x[1] \in LegalTexts(p)
+       /\ LET m == CHOOSE y \in Legal(p) : Uci(y) = x[1]  d == Occ(Apply(p, m)) >= 2
+          IN (d => (x[3] = 0 /\ ~x[4])) /\ (~d => ~x[2])
 PositionChecks(e) ==
   [C04_survives |-> NoCrash(e),
    C04_board    |-> Has(e, "board") => FromJson(e.board) = Final(e),
    C09_third_occurrence_is_draw |-> Has(e, "rep") => RepChecks(e, GameOf(e)),
+   C09_search_values_third_occurrence_as_draw |-> Has(e, "seen") => SeenChecks(e, GameOf(e)),
    H_script_is_legal |-> Len(MovesOf(StartOf(e), e.moves)) = Len(e.moves) /\ Valid(StartOf(e))]
 
 (* -------- go -------- *)
